@@ -1,11 +1,11 @@
 SPECIFICATION SSpec
 CONSTANTS
-  NA = 3
-  Rounds = 1
-  PerRound = 1
+  NA = 1
+  Rounds = 2
+  PerRound = 2
   NotifyMode = "token"
   TempApps = {}
-  TwoPhaseApps = {}
+  TwoPhaseApps = {1}
   ExitMode = "recheck"
-INVARIANTS FIFO DrainSound NoHang LockOK
+INVARIANTS FIFO DrainSound NoHang LockOK OneAtATime
 CHECK_DEADLOCK FALSE
